@@ -1130,3 +1130,310 @@ def check_storage_physics(case):
                 F('C05.duration.level_not_nonzero_longer_than_max', f'level {level.round(4).tolist()} non-zero for {run} > {case["max_dur"]}')
                 break
     return out
+
+
+# ------------------------------------------------------------------------------------------------ C06 CHP physics on optimised solutions
+def check_chp_physics(case):
+    """C06 on real optimised MIP solutions of a CHP with power / heat / fuel nodes: off => no output; on => virtual output
+    (power + factor x heat) within [min, max] capacity; ramp between consecutive steps and from the last dispatch; start
+    flagged exactly at off->on transitions; heat within its share of power; fuel = output / efficiency + running + start
+    consumption; the on/off pattern respects runtime / downtime / initial state."""
+    eao = eao_mod()
+    out = []
+    rng = random.Random(case['seed'])
+    T = case['T']
+    start = pd.Timestamp('2021-01-01')
+    tg = eao.assets.Timegrid(start, start + pd.Timedelta(T, 'h'), freq='h')
+    P, Hn, G = eao.assets.Node('P'), eao.assets.Node('H'), eao.assets.Node('G')
+    conv, share, eff, cons, sfuel = case.get('conv', .5), case.get('share', .5), case.get('eff', .8), case.get('cons', .2), case.get('start_fuel', .3)
+    mn, mx, ramp = case.get('min_cap', 1.), case.get('max_cap', 4.), case.get('ramp')
+    kw = dict(min_runtime=case.get('mr', 0), min_downtime=case.get('md', 0), time_already_running=case.get('tar', 0), time_already_off=case.get('tao', 0),
+              last_dispatch=case.get('last', 0.))
+    chp = eao.assets.CHPAsset(name='chp', nodes=[P, Hn, G], min_cap=mn, max_cap=mx, extra_costs=.2, conversion_factor_power_heat=conv, max_share_heat=share,
+                              ramp=ramp, start_costs=.5, running_costs=.1, start_fuel=sfuel, fuel_efficiency=eff, consumption_if_on=cons, **kw)
+    assets = [chp, eao.assets.SimpleContract(name='pm', nodes=P, price='p', min_cap=-10., max_cap=10.),
+              eao.assets.SimpleContract(name='hd', nodes=Hn, min_cap=-case.get('heat', .5), max_cap=-case.get('heat', .5)),
+              eao.assets.SimpleContract(name='boiler', nodes=Hn, price='hb', min_cap=0., max_cap=10.),
+              eao.assets.SimpleContract(name='gm', nodes=G, price='g', min_cap=0., max_cap=50.)]
+    if case.get('order'):
+        assets.reverse()
+    prices = {'p': np.asarray([float(rng.choice([-4, 1, 3, 6, 9, 12])) for _ in range(T)]), 'hb': np.full(T, 6.), 'g': np.full(T, float(rng.choice([1, 2, 4])))}
+    pf = eao.portfolio.Portfolio(assets)
+    op = pf.setup_optim_problem(prices, tg)
+    res = op.optimize()
+    F = lambda name, detail: out.append(fail(name, 'assets:CHPAsset.setup_optim_problem', case, dict(case), f'{detail} | prices p={prices["p"].tolist()} g={prices["g"][0]}'))
+    if isinstance(res, str):
+        return out
+    m = op.mapping
+    mine = m[m['asset'] == 'chp']
+    first = mine[~mine.index.duplicated(keep='first')]
+
+    def series(var, node=None):
+        r = first[(first['var_name'] == var) & ((first['node'] == node) if node else first['node'].isnull() | True)]
+        v = np.zeros(T)
+        for i, rr in r.iterrows():
+            v[int(rr['time_step'])] = res.x[i]
+        return v
+    pw, ht = series('disp', 'P'), series('disp', 'H')
+    on, st = np.round(series('bool_on')), np.round(series('bool_start'))
+    virt = pw + conv * ht
+    tol = 1e-5
+    for t in range(T):
+        if on[t] == 0 and (abs(pw[t]) > tol or abs(ht[t]) > tol):
+            F('C06.off.no_output', f'step {t}: power {pw[t]} heat {ht[t]} while off')
+            break
+        if on[t] == 1 and not (mn - tol <= virt[t] <= mx + tol):
+            # start / shutdown ramps are not used here, so the capacity band applies whenever on
+            F('C06.on.virtual_output_within_capacity', f'step {t}: virtual output {virt[t]} not in [{mn}, {mx}]')
+            break
+    if ramp is not None:
+        prev = kw['last_dispatch']
+        for t in range(T):
+            # a start from / shutdown to zero may jump to / from the minimum capacity (the band takes precedence over the ramp)
+            starting = (on[t] == 1 and (on[t - 1] == 0 if t > 0 else kw['time_already_running'] == 0))
+            stopping = (on[t] == 0 and (on[t - 1] == 1 if t > 0 else kw['time_already_running'] > 0))
+            if not starting and not stopping and abs(virt[t] - prev) > ramp + tol:
+                F('C06.ramp.change_within_ramp', f'step {t}: virtual output {prev} -> {virt[t]} exceeds ramp {ramp}')
+                break
+            prev = virt[t]
+    for t in range(T):
+        prev_on = on[t - 1] if t > 0 else (1 if kw['time_already_running'] > 0 else 0)
+        want = 1 if (on[t] == 1 and prev_on == 0) else 0
+        if st[t] != want:
+            F('C06.start.flag_exactly_at_off_on_transitions', f'step {t}: start flag {st[t]}, on {on.tolist()} (running before: {kw["time_already_running"]})')
+            break
+    if np.any(ht > share * pw + tol):
+        F('C06.heat.within_share_of_power', f'heat {ht.tolist()} power {pw.tolist()} share {share}')
+    o = eao.io.extract_output(pf, op, res)
+    fuel = -o['dispatch']['chp (G)'].values.astype(float)
+    want = virt / eff + cons * on + sfuel * st
+    if not np.allclose(fuel, want, atol=1e-5):
+        F('C06.fuel.output_over_efficiency_plus_running_and_start', f'fuel drawn {fuel.round(4).tolist()} expected {want.round(4).tolist()}')
+    if not uc_reference([int(v) for v in on], T, int(kw['min_runtime']), int(kw['min_downtime']), int(kw['time_already_running']), int(kw['time_already_off'])):
+        F('C06.patterns.solution_respects_runtime_downtime_initial_state', f'on {on.tolist()} mr {kw["min_runtime"]} md {kw["min_downtime"]} tar {kw["time_already_running"]} tao {kw["time_already_off"]}')
+    return out
+
+
+# ------------------------------------------------------------------------------------------------ C02 independent textbook formulation
+class _RefLP:
+    """tiny LP builder for scipy.optimize.linprog (independent of EAO's matrices)"""
+
+    def __init__(self):
+        self.lb, self.ub, self.c = [], [], []
+        self.eq, self.beq, self.ub_rows, self.bub = [], [], [], []
+
+    def var(self, lo, hi, cost=0.):
+        self.lb.append(lo)
+        self.ub.append(hi)
+        self.c.append(cost)
+        return len(self.c) - 1
+
+    def add_eq(self, coefs, rhs):
+        self.eq.append(dict(coefs))
+        self.beq.append(rhs)
+
+    def add_le(self, coefs, rhs):
+        self.ub_rows.append(dict(coefs))
+        self.bub.append(rhs)
+
+    def solve(self, fixed=None):
+        from scipy.optimize import linprog
+        n = len(self.c)
+
+        def mat(rows):
+            M = np.zeros((len(rows), n))
+            for r, row in enumerate(rows):
+                for j, v in row.items():
+                    M[r, j] += v
+            return M
+        lb, ub = list(self.lb), list(self.ub)
+        for j, v in (fixed or {}).items():
+            lb[j] = v - 1e-7
+            ub[j] = v + 1e-7
+        r = linprog(self.c, A_ub=mat(self.ub_rows) if self.ub_rows else None, b_ub=self.bub if self.ub_rows else None,
+                    A_eq=mat(self.eq) if self.eq else None, b_eq=self.beq if self.eq else None, bounds=list(zip(lb, ub)), method='highs')
+        return r
+
+
+def check_reference_lp(case):
+    """C02: optimum of the assembled problem = optimum of an independently written textbook formulation (volume limit = rate
+    x step length, discounting by (1+wacc)^(-elapsed years), storage level recursion, transport efficiency / per-flow costs,
+    buy/sell spread, commodity factors); EAO's dispatch is feasible and optimal for the reference model."""
+    eao = eao_mod()
+    out = []
+    rng = random.Random(case['seed'])
+    if case.get('dst'):
+        start = pd.Timestamp('2021-03-26')
+        tg = eao.assets.Timegrid(start, start + pd.Timedelta(case['T'], 'd'), freq='d', timezone='CET')      # steps of 24 / 23 h
+    else:
+        start = pd.Timestamp('2021-01-01')
+        tg = eao.assets.Timegrid(start, start + pd.Timedelta(case['T'] * 6, 'h'), freq='6h')
+    T = tg.T
+    pts = list(tg.timepoints) + [tg.end]
+    dt = np.asarray(tg.dt, dtype=float)
+    years = np.cumsum(dt) / (24. * 365.)
+    A, B = eao.assets.Node('A'), eao.assets.Node('B')
+    ref = _RefLP()
+    bal = {('A', t): {} for t in range(T)}
+    bal.update({('B', t): {} for t in range(T)})
+    prices = {'p': np.asarray([float(rng.randint(1, 9)) for _ in range(T)]), 'q': np.asarray([float(rng.randint(1, 9)) for _ in range(T)])}
+    assets = []
+    flows = {}      # (asset, node) -> list over t of {var: coefficient}: dispatch of the asset at that node
+    disc = lambda w: (1. + w) ** (-years)
+
+    def win():
+        a = rng.choice([0, 0, 1])
+        b = rng.choice([T, T, T - 1])
+        return a, b
+
+    kinds = rng.sample(['market', 'spread', 'transport', 'storage', 'storage2', 'multi', 'load'], rng.randint(3, 6))
+    if 'market' not in kinds:
+        kinds.append('market')
+    for kind in kinds:
+        w = rng.choice([0., 0., .1, .5])
+        d = disc(w)
+        a, b = win() if kind != 'market' else (0, T)
+        name = kind
+        if kind == 'market':
+            assets.append(eao.assets.SimpleContract(name=name, nodes=A, price='p', min_cap=-4., max_cap=4., wacc=w))
+            fl = []
+            for t in range(T):
+                v = ref.var(-4. * dt[t], 4. * dt[t], d[t] * prices['p'][t])
+                fl.append({v: 1.})
+            flows[(name, 'A')] = (fl, 0, T)
+        elif kind == 'load':
+            assets.append(eao.assets.SimpleContract(name=name, nodes=B, min_cap=-.5, max_cap=-.5, start=pts[a], end=pts[b], wacc=w))
+            flows[(name, 'B')] = ([{ref.var(-.5 * dt[t], -.5 * dt[t]): 1.} for t in range(a, b)], a, b)
+        elif kind == 'spread':
+            ec = rng.choice([.3, 1.])
+            assets.append(eao.assets.Contract(name=name, nodes=B, price='q', extra_costs=ec, min_cap=-2., max_cap=3., start=pts[a], end=pts[b], wacc=w))
+            fl = []
+            for t in range(a, b):
+                buy = ref.var(0., 3. * dt[t], d[t] * (prices['q'][t] + ec))
+                sell = ref.var(0., 2. * dt[t], d[t] * (-prices['q'][t] + ec))
+                fl.append({buy: 1., sell: -1.})
+            flows[(name, 'B')] = (fl, a, b)
+        elif kind == 'transport':
+            eff, cc = rng.choice([1., .9, .8]), rng.choice([0., .2])
+            assets.append(eao.assets.Transport(name=name, nodes=[A, B], min_cap=0., max_cap=2., efficiency=eff, costs_const=cc, start=pts[a], end=pts[b], wacc=w))
+            fa, fb = [], []
+            for t in range(a, b):
+                f = ref.var(0., 2. * dt[t], d[t] * cc)
+                fa.append({f: -1.})
+                fb.append({f: eff})
+            flows[(name, 'A')] = (fa, a, b)
+            flows[(name, 'B')] = (fb, a, b)
+        elif kind in ('storage', 'storage2'):
+            eff, ci, co = rng.choice([1., .9]), rng.choice([0., .1]), rng.choice([0., .2])
+            size, s0, e0, infl = 3. * 6, rng.choice([0., 2.]), rng.choice([0., 2.]), rng.choice([0., 0., .1])
+            two = kind == 'storage2'
+            assets.append(eao.assets.Storage(name=name, nodes=[A, B] if two else A, size=size, cap_in=1., cap_out=1.5, eff_in=eff, start_level=s0, end_level=e0,
+                                             inflow=infl, cost_in=ci, cost_out=co, start=pts[a], end=pts[b], wacc=w))
+            f_in, f_out, lvl = [], [], {}
+            for t in range(a, b):
+                c_ = ref.var(0., 1. * dt[t], d[t] * ci)
+                q_ = ref.var(0., 1.5 * dt[t], d[t] * co)
+                f_in.append({c_: -1.})
+                f_out.append({q_: 1.})
+                lvl = dict(lvl)
+                lvl[c_] = eff
+                lvl[q_] = -1.
+                acc = s0 + infl * float(dt[a:t + 1].sum())
+                if t < b - 1:
+                    ref.add_le(lvl, size - acc)                       # level <= size
+                    ref.add_le({k: -v for k, v in lvl.items()}, acc)  # level >= 0
+                else:
+                    ref.add_eq(lvl, e0 - acc)                         # level at the last active step = end level
+            if two:
+                flows[(name, 'A')] = (f_in, a, b)
+                flows[(name, 'B')] = (f_out, a, b)
+            else:
+                flows[(name, 'A')] = ([dict(list(x.items()) + list(y.items())) for x, y in zip(f_in, f_out)], a, b)
+        elif kind == 'multi':
+            fac, ec = [1., -.5], .2
+            assets.append(eao.assets.MultiCommodityContract(name=name, nodes=[A, B], factors_commodities=fac, min_cap=0., max_cap=2., extra_costs=ec,
+                                                            start=pts[a], end=pts[b], wacc=w))
+            fa, fb = [], []
+            for t in range(a, b):
+                v = ref.var(0., 2. * dt[t], d[t] * ec)
+                fa.append({v: fac[0]})
+                fb.append({v: fac[1]})
+            flows[(name, 'A')] = (fa, a, b)
+            flows[(name, 'B')] = (fb, a, b)
+    for (name, node), (fl, a, b) in flows.items():
+        for k, t in enumerate(range(a, b)):
+            for v, cf in fl[k].items():
+                bal[(node, t)][v] = bal[(node, t)].get(v, 0.) + cf
+    for key, row in bal.items():
+        if row:
+            ref.add_eq(row, 0.)
+    rng.shuffle(assets)
+    pf = eao.portfolio.Portfolio(assets)
+    op = pf.setup_optim_problem(prices, tg)
+    res = op.optimize()
+    r = ref.solve()
+    desc = f'assets {[type(x).__name__ + ":" + x.name for x in assets]}'
+    F = lambda name, detail: out.append(fail(name, 'portfolio:Portfolio.setup_optim_problem', case, dict(case), detail + ' | ' + desc))
+    if isinstance(res, str) or r.status != 0:
+        if isinstance(res, str) != (r.status != 0):
+            F('C02.reference.same_feasibility', f'EAO: {res if isinstance(res, str) else "optimal"}; reference: status {r.status} {r.message}')
+        return out
+    vref = -r.fun
+    if abs(vref - res.value) > 1e-5 * max(1., abs(vref)):
+        F('C02.reference.same_optimal_value', f'EAO {res.value} reference {vref}')
+        return out
+    # EAO's dispatch is feasible for the reference model: every net flow pinned to the reported dispatch
+    o = eao.io.extract_output(pf, op, res)
+    dsp = o['dispatch']
+    extra = _RefLP.__new__(_RefLP)
+    extra.__dict__ = {k: (list(v) if isinstance(v, list) else v) for k, v in ref.__dict__.items()}
+    for (name, node), (fl, a, b) in flows.items():
+        col = f'{name} ({node})'
+        for k, t in enumerate(range(a, b)):
+            v0 = float(dsp[col].iloc[t])
+            extra.add_le(fl[k], v0 + 1e-5)
+            extra.add_le({kk: -vv for kk, vv in fl[k].items()}, -v0 + 1e-5)
+    r2 = extra.solve()
+    if r2.status != 0:
+        F('C02.reference.eao_dispatch_feasible_for_reference', f'status {r2.status} {r2.message}')
+    elif abs(-r2.fun - vref) > 1e-3 * max(1., abs(vref)):
+        F('C02.reference.eao_dispatch_optimal_for_reference', f'value of the reference model at EAO dispatch {-r2.fun} vs optimum {vref}')
+    return out
+
+
+# ------------------------------------------------------------------------------------------------ C19 prices_to_grid
+def check_prices_to_grid(case):
+    """C19: already-gridded price arrays pass through unchanged (one row per grid point, in grid order, same values); prices
+    given at the grid's own time points likewise; prices given at other time points are interpolated in time between the
+    neighbouring given points and constant outside them."""
+    eao = eao_mod()
+    out = []
+    rng = random.Random(case['seed'])
+    start = pd.Timestamp(case['start'])
+    tg = eao.assets.Timegrid(start, start + pd.Timedelta(case['hours'], 'h'), freq=case['freq'], timezone=case.get('tz'))
+    T = tg.T
+    F = lambda name, detail: out.append(fail(name, 'basic_classes:Timegrid.prices_to_grid', case, dict(case), detail))
+    arr = {'p': np.asarray([float(rng.randint(-9, 9)) for _ in range(T)]), 'q': [float(rng.randint(-9, 9)) for _ in range(T)]}
+    keep = {k: (v.copy() if hasattr(v, 'copy') else list(v)) for k, v in arr.items()}
+    df = tg.prices_to_grid(arr)
+    ok = list(df.index) == list(tg.timepoints) and all(np.array_equal(np.asarray(df[k].values, dtype=float), np.asarray(keep[k], dtype=float)) for k in arr)
+    if not ok:
+        F('C19.prices.gridded_arrays_pass_through_unchanged', 'array input changed by prices_to_grid')
+    if not all(np.array_equal(np.asarray(arr[k], dtype=float), np.asarray(keep[k], dtype=float)) for k in arr):
+        F('C10.prices.input_not_modified', 'input arrays modified')
+    # given at the grid's own points (DataFrame with the grid's index, rows shuffled)
+    d2 = pd.DataFrame({'p': keep['p']}, index=tg.timepoints)
+    d2 = d2.iloc[rng.sample(range(T), T)]
+    df2 = tg.prices_to_grid(d2)
+    if not (list(df2.index) == list(tg.timepoints) and np.allclose(df2['p'].values.astype(float), keep['p'])):
+        F('C19.prices.values_at_grid_points_kept', 'frame with the grid index (rows shuffled) is not mapped back to grid order')
+    # given at other points: linear in time between neighbours, constant outside
+    if T >= 3:
+        sel = sorted(rng.sample(range(T), max(2, T // 2)))
+        d3 = pd.DataFrame({'p': [keep['p'][i] for i in sel]}, index=tg.timepoints[sel])
+        df3 = tg.prices_to_grid(d3)
+        tt = np.asarray([x.value for x in tg.timepoints], dtype=float)
+        exp = np.interp(tt, tt[sel], [keep['p'][i] for i in sel])
+        if not np.allclose(df3['p'].values.astype(float), exp, atol=1e-9):
+            F('C19.prices.interpolated_in_time', f'got {df3["p"].values.tolist()} expected {exp.tolist()}')
+    return out
